@@ -161,6 +161,39 @@ FRAGS = [
           "filename.lower().endswith(('.hdf5', '.h5'))": ('extOk', 'Bool')},
          ignore=[r"^fileobj = open\(filename, 'rb'\)$", r'^sig = fileobj\.read\(8\)$'], props=['C09'],
          doc='`is_hdf5`'),
+    # ------------------------------------------------------------------ flux.py
+    Frag('flux_table', 'astrodendro/flux.py', 'compute_flux',
+         {'input_quantities.unit.is_equivalent(u.Jy)': ('isFnu', 'Bool'),
+          'input_quantities.unit.is_equivalent(u.erg / u.cm ** 2 / u.s / u.m)': ('isFlambda', 'Bool'),
+          'input_quantities.unit.is_equivalent(u.MJy / u.sr)': ('isSurf', 'Bool'),
+          'input_quantities.unit.is_equivalent(u.Jy / u.beam)': ('isPerBeam', 'Bool'),
+          'input_quantities.unit.is_equivalent(u.K)': ('isTemp', 'Bool'),
+          'wavelength is not None': ('hasWav', 'Bool'), 'wavelength is None': ('(!hasWav)', 'Bool'),
+          'wavelength.unit.is_equivalent(u.m)': ('wavIsLength', 'Bool'),
+          'wavelength.unit.is_equivalent(u.m, equivalencies=u.spectral())': ('wavIsLengthOrFreq', 'Bool'),
+          'spatial_scale is not None': ('hasPix', 'Bool'), 'spatial_scale is None': ('(!hasPix)', 'Bool'),
+          'spatial_scale.unit.is_equivalent(u.degree)': ('pixIsAngle', 'Bool'),
+          'beam_major is not None': ('hasBmaj', 'Bool'), 'beam_major is None': ('(!hasBmaj)', 'Bool'),
+          'beam_major.unit.is_equivalent(u.degree)': ('bmajIsAngle', 'Bool'),
+          'beam_minor is not None': ('hasBmin', 'Bool'), 'beam_minor is None': ('(!hasBmin)', 'Bool'),
+          'beam_minor.unit.is_equivalent(u.degree)': ('bminIsAngle', 'Bool'),
+          'output_unit.is_equivalent(u.Jy)': ('outIsFnu', 'Bool'),
+          # which conversion produced the total: the five families
+          'quantity_sum(input_quantities).to(u.Jy)': ('(101 : Int)', 'Int'),
+          '(input_quantities * wavelength / nu).to(u.Jy)': ('(102 : Int)', 'Int'),
+          '(input_quantities * pixel_area).to(u.Jy)': ('(103 : Int)', 'Int'),
+          '(input_quantities * beams_per_pixel).to(u.Jy)': ('(104 : Int)', 'Int'),
+          'jansky_per_beam * beams_per_pixel': ('(105 : Int)', 'Int')},
+         alias={'quantity_sum(q)': 'q', 'total_flux.to(output_unit)': 'total_flux'},
+         param_types=dict((k, 'Bool') for k in ('hasWav', 'hasPix', 'hasBmaj', 'hasBmin')),
+         ignore=[r'^(nu|pixel_area|beams_per_pixel|omega_beam|jansky_per_beam) = ', r'^warnings\.warn\('],
+         raise_codes=[('wavelength should be', 1), ('wavelength is needed', 2), ('spatial_scale should be', 3),
+                      ('spatial_scale is needed', 4), ('beam_major should be', 5), ('beam_major is needed', 6),
+                      ('beam_minor should be', 7), ('beam_minor is needed', 8), ('not yet supported', 9),
+                      ('output_unit has to be', 10)],
+         ret='Int', props=['C13'],
+         doc='`compute_flux`: which unit family is taken, which check fires first (1-10, in the order of `Flux.Outcome`), or '
+             'which conversion yields the result (101-105)'),
 ]
 
 
